@@ -188,6 +188,7 @@ pub struct RunOutcome {
 
 thread_local! {
     static LAST_PANIC: std::cell::RefCell<String> = std::cell::RefCell::new(String::new());
+    static GUARD_DEPTH: std::cell::Cell<u32> = std::cell::Cell::new(0);
 }
 
 pub fn install_panic_hook() {
@@ -200,13 +201,20 @@ pub fn install_panic_hook() {
             "panic".to_string()
         };
         let loc = info.location().map(|l| format!("{}:{}", l.file(), l.line())).unwrap_or_default();
+        // a panic outside `guarded` is a bug of the harness itself: say so loudly
+        if GUARD_DEPTH.with(|d| d.get()) == 0 {
+            eprintln!("HARNESS PANIC: {} at {}", msg, loc);
+        }
         LAST_PANIC.with(|p| *p.borrow_mut() = format!("{} at {}", msg, loc));
     }));
 }
 
 /// run real code; a panic is returned as Err(message)
 pub fn guarded<R>(f: impl FnOnce() -> R) -> Result<R, String> {
-    match catch_unwind(AssertUnwindSafe(f)) {
+    GUARD_DEPTH.with(|d| d.set(d.get() + 1));
+    let r = catch_unwind(AssertUnwindSafe(f));
+    GUARD_DEPTH.with(|d| d.set(d.get() - 1));
+    match r {
         Ok(r) => Ok(r),
         Err(_) => Err(LAST_PANIC.with(|p| p.borrow().clone())),
     }
@@ -389,12 +397,14 @@ pub fn minimise<S: Scenario>(s: &S, setup: &J, ops: &[Op], target: &Violation) -
             }
         }
     }
-    // argument shrinking
+    // argument shrinking (the list may get shorter while we walk it: bounds are re-read every time)
     let mut progress = true;
     while progress && budget > 0 {
         progress = false;
-        for i in 0..cur.len() {
-            for a in 0..cur[i].args.len() {
+        let mut i = 0;
+        while i < cur.len() {
+            let mut a = 0;
+            while i < cur.len() && a < cur[i].args.len() {
                 let (name, v) = cur[i].args[a].clone();
                 for c in s.shrink_values(&cur[i], &name, v) {
                     let mut cand = cur.clone();
@@ -408,13 +418,9 @@ pub fn minimise<S: Scenario>(s: &S, setup: &J, ops: &[Op], target: &Violation) -
                         break;
                     }
                 }
-                if i >= cur.len() {
-                    break;
-                }
+                a += 1;
             }
-            if i >= cur.len() {
-                break;
-            }
+            i += 1;
         }
     }
     (cur_setup, cur, cur_v, cur_at, true)
